@@ -12,6 +12,19 @@ import numpy as np
 
 RESERVED = ("time", "y", "x")
 K = "pipeline.charge_collection.m.arguments."
+GROUPS = ("photon_collection", "charge_collection", "charge_measurement")
+
+
+def decode_trace(x):
+    """trace column -> idents of the instances that executed, in execution order (None = not a trace)"""
+    import verif_probes_c07 as vp
+
+    if np.isnan(x) or x < 0 or x != int(x):
+        return None
+    d = vp.decode(int(x))
+    if d is None or any(isinstance(e, list) for e in d):
+        return None
+    return list(reversed(d))
 
 
 def _jl(v):
@@ -25,7 +38,29 @@ def _jl(v):
     return int(round(float(v)))
 
 
-def dump(dt, names, kind, prefer_order=True):
+def decode_settings(x):
+    import verif_probes_c07 as vp
+
+    if np.isnan(x) or x < 0 or x != int(x):
+        return None
+    d = vp.decode(int(x))
+    if d is None or any(isinstance(e, list) for e in d):
+        return None
+    return d
+
+
+def extras(arr, n, trace):
+    """the columns after the n parameter columns: execution trace [, detector settings]"""
+    out = []
+    tr = decode_trace(arr[n])
+    out.append(tr if tr is not None else [-88])
+    if trace > 1:
+        st = decode_settings(arr[n + 1])
+        out.append(st if st is not None else [-88])
+    return out
+
+
+def dump(dt, names, kind, prefer_order=True, trace=0):
     """-> (shape, cells) ; cell = dict(label=[...], data=[...]|None, mem=int)"""
     import verif_probes_c07 as vp
 
@@ -57,14 +92,18 @@ def dump(dt, names, kind, prefer_order=True):
             label = [-97] + label[1:]
         if kind == "encs":
             # one column per parameter: column k = code of the value parameter k's model instance received
-            if arr.size != len(names) or np.isnan(arr).any() or np.isnan(sig).any():
+            if arr.size != len(names) + trace or np.isnan(arr).any() or np.isnan(sig).any():
                 data, mem = None, -1
             else:
                 data = []
-                for x in arr:
+                for x in arr[:len(names)]:
                     dec = vp.decode(int(x))
                     data.append(dec[0] if dec is not None and len(dec) == 1 else -88)
                 mem = int(sig.sum())
+                if trace:
+                    # the data of an entry ends with the instances that executed in the run that produced it
+                    # ... and with the detector settings that run saw
+                    data += extras(arr, len(names), trace)
                 if aux_bad:
                     data, mem = None, -2
             cells.append(dict(label=label, data=data, mem=mem))
@@ -123,12 +162,27 @@ def build(case, with_dask, out_dir=None):
             args[f"p{k}"] = [float(x) for x in d] if isinstance(d, list) else float(d)
         func = "verif_probes_c07.enc"
     if case["kind"] == "encs":
-        det = pyx.make_detector(rows=1, cols=n)
-        models = []
-        for j in sorted({j for j, _ in case["layout"]}):
+        # `pipe` (optional): every probe instance of the pipeline in execution order, [ident, enabled, group]; the
+        # instances that own parameter slots are switched on and live in charge_collection (their keys say so); the
+        # others are decoys: switched off (they must never execute) or on (order of execution).  With `pipe` the
+        # detector has one more column: the execution trace
+        plan = case.get("pipe")
+        st = case.get("det") if plan else None
+        if st:
+            det = pyx.make_detector(rows=1, cols=n + 2, pre_amplification=float(st[0]), full_well_capacity=int(st[1]),
+                                    adc_bit_resolution=int(st[2]), pixel_vert_size=float(st[4]), pixel_horz_size=float(st[5]))
+            det.geometry.total_thickness = float(st[3])
+        else:
+            det = pyx.make_detector(rows=1, cols=n + (1 if plan else 0))
+        if plan is None:
+            plan = [[j, True, 1] for j in sorted({j for j, _ in case["layout"]})]
+        groups = {}
+        for j, enabled, grp in plan:
             margs = dict(ident=j, slots=",".join(f"{arg}:{k}" for k, (jj, arg) in enumerate(case["layout"]) if jj == j),
                          sleep_scale=case.get("sleep_scale", 0.0), sleep_mult=case.get("sleep_mult", 1),
                          slow_sum=case.get("slow_sum"))
+            if case.get("pipe"):
+                margs["trace"] = n
             for k, (jj, arg) in enumerate(case["layout"]):
                 if jj == j:
                     d = (case.get("defaults") or [0] * n)[k]
@@ -136,8 +190,9 @@ def build(case, with_dask, out_dir=None):
                         det.environment.temperature = float(d)
                     else:
                         margs[arg] = [float(x) for x in d] if isinstance(d, list) else float(d)
-            models.append(dict(func="verif_probes_c07.encs", name=f"m{j}", arguments=margs))
-        pipe = pyx.make_pipeline({"charge_collection": models})
+            groups.setdefault(GROUPS[grp], []).append(dict(func="verif_probes_c07.encs", name=f"m{j}", arguments=margs,
+                                                           enabled=bool(enabled)))
+        pipe = pyx.make_pipeline({g: groups[g] for g in GROUPS if g in groups})
     else:
         pipe = pyx.make_pipeline({"charge_collection": [dict(func=func, name="m", arguments=args)]})
     keys = keys_of(case)
@@ -159,14 +214,21 @@ def build(case, with_dask, out_dir=None):
     if out_dir is not None:
         from pyxel.outputs import ObservationOutputs
         outputs = ObservationOutputs(output_folder=out_dir, save_data_to_file=[{"detector.pixel.array": ["npy"]}])
-    obs = Observation(parameters=params, mode=case["mode"], readout=pyx.make_readout(times=[1.0]),
+    st = case.get("det") if case.get("pipe") and case["kind"] == "encs" else None
+    readout = pyx.make_readout(times=[1.0])
+    if st and len(st) >= 8:
+        readout = pyx.make_readout(times=[float(st[6])], non_destructive=bool(st[7]))
+    obs = Observation(parameters=params, mode=case["mode"], readout=readout,
                       with_dask=with_dask, outputs=outputs, pipeline_seed=case.get("pipeline_seed"), **kw)
     return det, pipe, obs
 
 
 def snapshot(det, pipe):
     """the settings of the caller's objects that the swept keys address"""
-    out = [repr(float(det.environment.temperature))]
+    try:
+        out = [repr(float(det.environment.temperature))]
+    except Exception as ex:  # noqa: BLE001  (no temperature on this detector: a model that reads it would say so)
+        out = ["?" + type(ex).__name__]
     try:
         for m in pipe.charge_collection.models:
             out.append(repr(sorted((k, repr(v)) for k, v in dict(m.arguments).items())))
@@ -180,7 +242,9 @@ def state_hash():
     return vp0.rng_state_hash()
 
 
-def run_one(case, with_dask, sched=None, out_dir=None):
+def run_one(case, with_dask, sched=None, out_dir=None, meta_exec=None):
+    """meta_exec: how many probe instances one run of the sequential path executed (what the metadata run of the
+    parallel path, which works on a deep copy of the caller's processor, executes too)"""
     import dask
     import pyxel
     import verif_probes_c07 as vp
@@ -188,47 +252,91 @@ def run_one(case, with_dask, sched=None, out_dir=None):
     vp.reset()
     names = names_of(case)
     res = {}
+    trace = (0 if not case.get("pipe") or case["kind"] != "encs" else 2 if case.get("det") else 1)
+    pool = None
     try:
         det, pipe, obs = build(case, with_dask, out_dir)
-        cfg = {}
-        if sched:
-            cfg["scheduler"] = sched["scheduler"]
-            if sched.get("workers"):
-                cfg["num_workers"] = sched["workers"]
+        cfg, pool = sched_config(sched)
+        if sched and sched.get("pre"):
+            # the caller's objects went through pickle before the observation is run on them
+            mod = __import__(sched["pre"])
+            det, pipe = mod.loads(mod.dumps((det, pipe)))
         before = state_hash()
         snap0 = snapshot(det, pipe)
         with dask.config.set(**cfg):
             dt = pyxel.run_mode(mode=obs, detector=det, pipeline=pipe, with_inherited_coords=True)
-            shape, cells = dump(dt, names, case["kind"])
+            shape, cells = dump(dt, names, case["kind"], trace=trace)
         if case["kind"] in ("enc", "encs") and cells and snapshot(det, pipe) != snap0:
             # the runs must work on copies: the caller's detector / pipeline keep the settings they had
             cells[0]["mem"] += 1000
         res = dict(shape=shape, cells=cells, leak=int(state_hash() != before))
-        if case["kind"] in ("enc", "encs") and with_dask and cells and (sched or {}).get("scheduler") != "processes":
+        if case["kind"] in ("enc", "encs") and with_dask and cells and in_process(sched):
             # every cell is computed exactly once (+ the one metadata run): surplus executions are added to the trace
-            # counter of the first cell (the model expects 0)
+            # counter of the first cell (the model expects 0).  Only the models that are switched on execute.
             nmod = len({j for j, _ in case["layout"]}) if case["kind"] == "encs" else 1
+            if case["kind"] == "encs" and case.get("pipe"):
+                nmod = sum(1 for _, enabled, _ in case["pipe"] if enabled)
             ntask = 1
             for n_ in shape:
                 ntask *= n_
+            expected = nmod * (ntask + 1)
+            if trace and all(c.get("data") for c in cells):
+                # with an execution trace: every entry says which instances ran for it; the metadata run works on
+                # the caller's processor (on its unpickled copy when the caller's objects went through pickle)
+                # (a deep copy of the caller's processor; the caller's objects are the unpickled ones under "pre")
+                tr = [c["data"][len(names)] for c in cells]
+                tasks_pickled = bool(sched) and sched.get("scheduler") == "processes"
+                expected = sum(len(t) for t in tr) + (len(tr[0]) if not tasks_pickled else
+                                                      meta_exec if meta_exec is not None else nmod)
             res["executions"] = vp.EXEC["n"]
-            cells[0]["mem"] += abs(vp.EXEC["n"] - nmod * (ntask + 1))
+            cells[0]["mem"] += abs(vp.EXEC["n"] - expected)
         if out_dir is not None:
-            res["files"] = read_files(out_dir, case["kind"])
+            res["files"] = read_files(out_dir, case["kind"], len(names) if trace else None, trace)
     except Exception as ex:  # noqa: BLE001
         res = dict(raised=type(ex).__name__, msg=str(ex)[:200])
+    finally:
+        if pool is not None and hasattr(pool, "shutdown"):
+            pool.shutdown()
     return res
 
 
-def read_files(out_dir, kind="enc"):
+def in_process(sched) -> bool:
+    """do the tasks execute in THIS process (so that the probes' execution counter sees them)?"""
+    return not sched or sched.get("scheduler") != "processes" or bool(sched.get("pool"))
+
+
+def sched_config(sched):
+    """dask configuration of a scheduler description.  {"scheduler": "processes", "pool": "sync" | "threads"}: dask's
+    process-pool scheduler (dask.multiprocessing.get: every task is serialised with cloudpickle and unpickled by the
+    worker that executes it) with an IN-PROCESS executor -- exactly what a worker process receives, without
+    starting processes."""
+    cfg, pool = {}, None
+    if sched:
+        cfg["scheduler"] = sched["scheduler"]
+        if sched.get("workers"):
+            cfg["num_workers"] = sched["workers"]
+        if sched.get("pool") == "sync":
+            from dask.local import SynchronousExecutor
+            pool = SynchronousExecutor()
+        elif sched.get("pool") == "threads":
+            from concurrent.futures import ThreadPoolExecutor
+            pool = ThreadPoolExecutor(sched.get("workers") or 2)
+        if pool is not None:
+            cfg["pool"] = pool
+    return cfg, pool
+
+
+def read_files(out_dir, kind="enc", ntrace=None, trace=1):
     import verif_probes_c07 as vp
 
     def dec(a):
         if kind == "encs":
             out = []
-            for x in a:
+            for x in (a if ntrace is None else a[:ntrace]):
                 d = vp.decode(int(x)) if not np.isnan(x) else None
                 out.append(d[0] if d is not None and len(d) == 1 else -88)
+            if ntrace is not None:
+                out += extras(a, ntrace, trace) if a.size == ntrace + trace else [[-88]] * trace
             return out
         return vp.decode(int(a[0])) if a.size and np.all(a == a[0]) else None
 
@@ -255,8 +363,51 @@ def handle_obs(case):
             out_dir = os.path.abspath(f"c07_out_{k}")
             shutil.rmtree(out_dir, ignore_errors=True)
         np.random.seed(case.get("global_seed", 12345))
-        dasks.append(run_one(case, True, sched, out_dir))
+        meta_exec = None
+        if case.get("pipe") and seq.get("cells") and seq["cells"][0].get("data"):
+            meta_exec = len(seq["cells"][0]["data"][len(case["params"])])
+        dasks.append(run_one(case, True, sched, out_dir, meta_exec))
     return dict(seq=seq, dask=dasks)
+
+
+def fitting_problem(case):
+    """pyxel's own calibration problem (ModelFittingDataTree) on a pipeline with one fitted model and models that are
+    SWITCHED OFF: whoever evaluates a candidate -- this thread, a pool thread, a worker that received the problem
+    through pickle -- must simulate the same data.  case["fit"] = dict(pattern, target, off=[positions of the switched
+    -off models in the model list])"""
+    import logging
+
+    import pyxel.calibration.fitting_datatree as fdt
+    from harness import pyx
+    from pyxel.calibration import FitRange2D
+    from pyxel.exposure import Readout
+    from pyxel.observation import ParameterValues
+    from pyxel.pipelines import Processor
+    from pyxel.pipelines.model_function import FitnessFunction
+
+    logging.disable(logging.CRITICAL)
+    fit = case["fit"]
+    pat = [[float(v) for v in row] for row in fit["pattern"]]
+    rows, cols = len(pat), len(pat[0])
+    det = pyx.make_detector(rows=rows, cols=cols)
+    models = [dict(func="verif_probes_c07.calprobe", name="cal", arguments=dict(pattern=pat, gain=1.0, bias=0.0))]
+    for k, pos in enumerate(fit.get("off", [])):
+        models.insert(min(pos, len(models)), dict(func="verif_probes_c07.calprobe", name=f"off{k}", enabled=False,
+                                                  arguments=dict(pattern=[[64.0 * (k + 1)] * cols] * rows)))
+    pipe = pyx.make_pipeline({"charge_collection": models})
+    proc = Processor(detector=det, pipeline=pipe)
+    variables = [ParameterValues(key="pipeline.charge_collection.cal.arguments.gain", values="_", logarithmic=False,
+                                 boundaries=(0.0, 8.0)),
+                 ParameterValues(key="pipeline.charge_collection.cal.arguments.bias", values="_", logarithmic=False,
+                                 boundaries=(-4.0, 4.0))]
+    fn = os.path.abspath("c07_target.npy")
+    np.save(fn, np.array(fit["target"], dtype=float))
+    rng = FitRange2D(row=slice(0, rows), col=slice(0, cols))
+    return fdt.ModelFittingDataTree(
+        processor=proc, variables=variables, readout=Readout(), simulation_output="pixel", generations=1,
+        population_size=5, fitness_func=FitnessFunction(func="verif_probes_c07.absdiff", arguments=None), file_path=None,
+        target_fit_range=rng, out_fit_range=rng, target_filenames=[fn], input_arguments=None, weights=None,
+        weights_from_file=None)
 
 
 def handle_islands(case):
@@ -274,41 +425,42 @@ def handle_islands(case):
         return int(round(float(x) * 2 ** 20))
 
     def one(par, sched):
-        cfg = {}
-        if sched:
-            cfg["scheduler"] = sched["scheduler"]
-            if sched.get("workers"):
-                cfg["num_workers"] = sched["workers"]
+        cfg, pool = sched_config(sched)
         try:
             with dask.config.set(**cfg):
                 pg.set_global_rng_seed(seed=case["seed"] % 100000)
                 algo = Algorithm(type="sade", generations=case.get("generations", 1), population_size=case["pop"])
                 arch = ArchipelagoDataTree(num_islands=case["n"], udi=DaskIsland(), algorithm=algo,
-                                           problem=vp.SlowProblem(case.get("scale", 0.0) if par else 0.0),
+                                           problem=(fitting_problem(case) if case.get("fit") else
+                                                    vp.SlowProblem(case.get("scale", 0.0) if par else 0.0)),
                                            topology=pg.unconnected(), pop_size=case["pop"], pygmo_seed=case["seed"],
                                            bfe=(DaskBFE(chunk_size=case.get("chunk")) if case.get("bfe") else None),
                                            parallel=par)
                 isl = []
                 for island in arch._pygmo_archi:
                     pop = island.get_population()
-                    isl.append(dict(seed=int(pop.get_seed()) % (2 ** 31), f0=int(pop.get_f()[0][0])))
+                    isl.append(dict(seed=int(pop.get_seed()) % (2 ** 31), f0=q(pop.get_f()[0][0]) if case.get("fit")
+                                    else int(pop.get_f()[0][0])))
                 if case.get("evolve") and not par:
                     # the reference: every island's algorithm evolves its population here, one after the other, in
                     # this thread -- no island threads, no dask
                     for k, island in enumerate(arch._pygmo_archi):
                         pop = island.get_algorithm().evolve(island.get_population())
-                        isl[k]["champ_f"] = int(pop.champion_f[0])
+                        isl[k]["champ_f"] = q(pop.champion_f[0]) if case.get("fit") else int(pop.champion_f[0])
                         isl[k]["champ_x"] = [q(x) for x in pop.champion_x]
                 elif case.get("evolve"):
                     arch._pygmo_archi.evolve()          # every island in its own thread, DaskIsland.run_evolve
                     arch._pygmo_archi.wait_check()
                     for k, island in enumerate(arch._pygmo_archi):
                         pop = island.get_population()
-                        isl[k]["champ_f"] = int(pop.champion_f[0])
+                        isl[k]["champ_f"] = q(pop.champion_f[0]) if case.get("fit") else int(pop.champion_f[0])
                         isl[k]["champ_x"] = [q(x) for x in pop.champion_x]
             return isl
         except Exception as ex:  # noqa: BLE001
             return dict(raised=type(ex).__name__, msg=str(ex)[:200])
+        finally:
+            if pool is not None and hasattr(pool, "shutdown"):
+                pool.shutdown()
 
     out = dict(seq=one(False, dict(scheduler="synchronous")))
     pars = []
@@ -326,21 +478,31 @@ def handle_bfe(case):
     import verif_probes_c07 as vp
     from pyxel.calibration.user_defined import DaskBFE
 
-    prob = pg.problem(vp.SlowProblem(0.0))
+    fit = bool(case.get("fit"))
+    prob = pg.problem(fitting_problem(case) if fit else vp.SlowProblem(0.0))
     rng = np.random.default_rng(case["seed"])
     dvs = rng.integers(0, 1024, size=(case["n"], 2)) / 1024.0
-    seq = [int(prob.fitness(dv)[0]) for dv in dvs]
+    if fit:
+        # candidates (gain, bias) inside the bounds, dyadic: the figure of merit is exact
+        dvs = np.stack([rng.integers(0, 32, size=case["n"]) / 4.0, rng.integers(-16, 17, size=case["n"]) / 4.0], axis=1)
+
+    def val(v):
+        return int(round(float(v) * 1024)) if fit else int(v)
+
+    seq = [val(prob.fitness(dv)[0]) for dv in dvs]
     outs = []
     for sched in case["scheds"]:
         try:
-            slow = pg.problem(vp.SlowProblem(case.get("scale", 0.0)))
-            cfg = dict(scheduler=sched["scheduler"])
-            if sched.get("workers"):
-                cfg["num_workers"] = sched["workers"]
-            with dask.config.set(**cfg):
-                r = DaskBFE(chunk_size=case["chunk"])(slow, dvs.reshape(-1))
-                r = np.asarray(r.compute() if hasattr(r, "compute") else r)
-            outs.append(dict(values=[int(v) for v in r.reshape(-1)]))
+            slow = prob if fit else pg.problem(vp.SlowProblem(case.get("scale", 0.0)))
+            cfg, pool = sched_config(sched)
+            try:
+                with dask.config.set(**cfg):
+                    r = DaskBFE(chunk_size=case["chunk"])(slow, dvs.reshape(-1))
+                    r = np.asarray(r.compute() if hasattr(r, "compute") else r)
+            finally:
+                if pool is not None and hasattr(pool, "shutdown"):
+                    pool.shutdown()
+            outs.append(dict(values=[val(v) for v in r.reshape(-1)]))
         except Exception as ex:  # noqa: BLE001
             outs.append(dict(raised=type(ex).__name__, msg=str(ex)[:200]))
     return dict(seq=seq, dask=outs)
